@@ -109,6 +109,14 @@ Definition scalar_pb (s : scalar) : pb :=
   | SOther => PbUndef
   end.
 
+(* `for i, elem := range av { vs[i] = f(elem) }` with a callee that may fault *)
+Definition mapM_gen {A B} (f : A -> res B) :=
+  fix go (l : list A) {struct l} : res (list B) :=
+    match l with
+    | [] => Ok []
+    | x :: l' => let* y := f x in let* ys := go l' in Ok (y :: ys)
+    end.
+
 (* proto/convert.go:160 FromPBData: switch v.Kind.(type); a nil message faults on v.Kind; there is no arm
    for BinaryValue nor Reference (default: Undef) *)
 Fixpoint from_pb (d : pb) : res value :=
@@ -120,24 +128,14 @@ Fixpoint from_pb (d : pb) : res value :=
   | PbStr s => Ok (VStr s)
   | PbUndef => Ok VUndef
   | PbArr l =>                                                       (* :173 *)
-      let* vs := (fix go (l0 : list pb) : res (list value) :=
-                    match l0 with
-                    | [] => Ok []
-                    | x :: l' => let* v := from_pb x in let* vs := go l' in Ok (v :: vs)
-                    end) l in
-      Ok (VArr vs)
+      let* vs := mapM_gen from_pb l in Ok (VArr vs)
   | PbHash es =>                                                     (* :180 *)
-      let* vs := (fix go (l0 : list (pb * pb)) : res (list (value * value)) :=
-                    match l0 with
-                    | [] => Ok []
-                    | (k, x) :: l' =>
-                        let* kv := from_pb k in let* xv := from_pb x in let* vs := go l' in Ok ((kv, xv) :: vs)
-                    end) es in
+      let* vs := mapM_gen (fun kx => let* kv := from_pb (fst kx) in let* xv := from_pb (snd kx) in Ok (kv, xv)) es in
       Ok (VHash vs)
   | PbNoKind | PbBin _ | PbRef _ => Ok VUndef                       (* :187 default *)
   end.
 
-(* proto/convert.go:121 ConsumePBData: the calls made on the consumer *)
+(* proto/convert.go:121 ConsumePBData: the call made on the consumer *)
 Fixpoint consume_pb (d : pb) : res ev :=
   match d with
   | PbNil => Fault                                                   (* :122 nil pointer dereference *)
@@ -147,21 +145,10 @@ Fixpoint consume_pb (d : pb) : res ev :=
   | PbStr s => Ok (EAdd (SStr s))
   | PbUndef => Ok (EAdd SUndef)
   | PbArr l =>                                                       (* :133 *)
-      let* es := (fix go (l0 : list pb) : res (list ev) :=
-                    match l0 with
-                    | [] => Ok []
-                    | x :: l' => let* e := consume_pb x in let* es := go l' in Ok (e :: es)
-                    end) l in
-      Ok (EArr es)
-  | PbHash es =>                                                     (* :140 *)
-      let* evs := (fix go (l0 : list (pb * pb)) : res (list ev) :=
-                     match l0 with
-                     | [] => Ok []
-                     | (k, x) :: l' =>
-                         let* ke := consume_pb k in let* xe := consume_pb x in let* evs := go l' in
-                         Ok (ke :: xe :: evs)
-                     end) es in
-      Ok (EHash evs)
+      let* es := mapM_gen consume_pb l in Ok (EArr es)
+  | PbHash es =>                                                     (* :140 key, value, key, value, ... *)
+      let* ps := mapM_gen (fun kx => let* ke := consume_pb (fst kx) in let* xe := consume_pb (snd kx) in Ok (ke, xe)) es in
+      Ok (EHash (flat_map (fun p => [fst p; snd p]) ps))
   | PbBin b => Ok (EAdd (SBin b))                                    (* :148 *)
   | PbRef n => Ok (ERef n)                                           (* :150 *)
   | PbNoKind => Ok (EAdd SUndef)                                     (* :152 default *)
@@ -345,4 +332,35 @@ Fixpoint ref_free (e : ev) : bool :=
   | ERef _ => false
   | EArr l | EHash l => forallb ref_free l
   | _ => true
+  end.
+
+(* consecutive pairs (k, v) of an even list *)
+Fixpoint pairs {A} (l : list A) : list (A * A) :=
+  match l with
+  | k :: v :: r => (k, v) :: pairs r
+  | _ => []
+  end.
+
+(* the message a tree of calls denotes (every hash even) *)
+Fixpoint pb_of_ev (e : ev) : pb :=
+  match e with
+  | EAdd s => scalar_pb s
+  | ERef n => PbRef n
+  | EArr l => PbArr (map pb_of_ev l)
+  | EHash l => PbHash (pairs (map pb_of_ev l))
+  end.
+
+(* the value a reference-free tree of calls denotes (every hash even) *)
+Definition value_of_scalar (s : scalar) : value :=
+  match s with
+  | SUndef => VUndef | SBool b => VBool b | SInt z => VInt z | SFloat f => VFloat f
+  | SStr x => VStr x | SBin b => VBin b | SOther => VOther
+  end.
+
+Fixpoint value_of_ev (e : ev) : value :=
+  match e with
+  | EAdd s => value_of_scalar s
+  | ERef _ => VUndef
+  | EArr l => VArr (map value_of_ev l)
+  | EHash l => VHash (pairs (map value_of_ev l))
   end.
